@@ -50,6 +50,10 @@ WsPool  == { S(sp), S(<<>>), Un("opt", S(sp)), Un("not", S(sp)), Un("rep", S(sp)
              Bin("seq", S(sp), Un("rep", Un("not", S(a)))), Bin("seq", S(sp), Un("rep1", Un("opt", S(sp)))),
              Bin("seq", S(sp), Un("rep", S(<<>>))), Bin("seq", S(sp), Un("rep", S(sp))) }
 
+Tg(x) == [t |-> "tag", a |-> x, tag |-> "t"]
+\* (a tag over built-ins - which yield no pair - is refused for that reason alone: left out)
+TagExprs == { e \in UNION { ExprsOfSize(n) : n \in 1..3 } : Refs(e) \cap {"EOI", "ANY"} = {} }
+
 \* a repetition whose body reaches the rule it stands in (directly or through r1) after that rule has consumed
 \* something: no left recursion, but the rule may be nullable and the repetition then spins
 SelfExprs ==
@@ -94,6 +98,9 @@ Grammars ==
          \cup
          { [m |-> [ty |-> "", e |-> Bin("seq", S(a), S(a))], r1 |-> [ty |-> "", e |-> x],
             WHITESPACE |-> [ty |-> "_", e |-> Bin("seq", Id("r1"), Id("r1"))]] : x \in TwiceAux }
+    [] Slice = "tag" ->    \* grammar-extras: the expression sits under a node tag (#t = e), alone and as part of a sequence
+         { [m |-> [ty |-> "", e |-> Tg(e)], r1 |-> [ty |-> "", e |-> x]] : e \in TagExprs, x \in {S(a), S(<<>>), Un("opt", Id("m"))} }
+         \cup { [m |-> [ty |-> "", e |-> Bin("seq", S(a), Tg(e))], r1 |-> [ty |-> "", e |-> x]] : e \in TagExprs, x \in {S(a), S(<<>>)} }
     [] Slice = "self" ->
          { [m |-> [ty |-> t, e |-> e], r1 |-> [ty |-> "", e |-> x]] : e \in SelfExprs, x \in AuxPool, t \in {"", "_"} }
     [] Slice = "rec" ->
